@@ -107,6 +107,21 @@ fn main() {
         }
         _ => Tier::Quick,
     };
+    // memory guard: an engine that outgrows the machine must end as a machinery error with a message, not be killed
+    // by the kernel (which also takes unrelated processes down).  Cap: VERIF_RSS_CAP_GB or 36 GiB.
+    std::thread::spawn(|| {
+        let cap_gb: u64 = std::env::var("VERIF_RSS_CAP_GB").ok().and_then(|s| s.parse().ok()).unwrap_or(36);
+        loop {
+            std::thread::sleep(std::time::Duration::from_millis(500));
+            if let Ok(s) = std::fs::read_to_string("/proc/self/statm") {
+                let pages: u64 = s.split_whitespace().nth(1).and_then(|x| x.parse().ok()).unwrap_or(0);
+                if pages * 4096 > cap_gb << 30 {
+                    println!("MACHINERY-ERROR resident memory exceeded {} GiB; the run is abandoned (no verdict)", cap_gb);
+                    std::process::exit(2);
+                }
+            }
+        }
+    });
     let code = match prop {
         "C01" => c_docs::c01(tier),
         "C02" => c_docs::c02(tier),
